@@ -1609,7 +1609,7 @@ class Parameter(_ParameterBase):
             if not self.owner.param._BATCH_WATCH:
                 try:
                     self.owner.param._batch_call_watchers()
-                except BaseException:
+                except Exception:
                     pass
             raise
         if not self.owner.param._BATCH_WATCH:
@@ -1823,7 +1823,7 @@ class Parameter(_ParameterBase):
             if not obj.param._BATCH_WATCH:
                 try:
                     obj.param._batch_call_watchers()
-                except BaseException:
+                except Exception:
                     pass
             raise
         if not obj.param._BATCH_WATCH:
@@ -2663,10 +2663,9 @@ class Parameters:
                 if successor is not None:
                     wobj.param._state_watchers = [
                         successor if w == q else q for q in wobj.param._state_watchers]
-                    for queued in wobj.param._events:
-                        # (with the events that were queued for it)
-                        if getattr(queued, 'watcher', None) is not None and queued.watcher == w:
-                            queued.watcher = successor
+                    # (with the events that were queued for it: they are
+                    # found through the predecessor when the batch ends)
+                    successor.fn._predecessor = w
         for m in init_methods:
             m()
         return compared
@@ -2988,8 +2987,9 @@ class Parameters:
                 if not BATCH_WATCH:
                     try:
                         self_._batch_call_watchers()
-                    except BaseException:
-                        # (the failure reported is the first one)
+                    except Exception:
+                        # (the failure reported is the first one; an
+                        # interrupt is never swallowed)
                         if not failed:
                             raise
             finally:
@@ -3280,10 +3280,12 @@ class Parameters:
                 initial = {}
                 latest = {}
                 qualified = defaultdict(set)
+                queued_for = {}
                 for event in self_._events:
                     key = (event.name, event.what)
                     if getattr(event, 'watcher', None) is not None:
                         qualified[id(event.watcher)].add(key)
+                        queued_for[id(event.watcher)] = event.watcher
                     first = event_dict.get(key)
                     if first is None:
                         initial[key] = event.old
@@ -3314,8 +3316,18 @@ class Parameters:
 
                 for watcher in sorted(watchers, key=lambda w: w.precedence):
                     # (a watcher that took the place of a waiting one, see
-                    # _update_deps, is handed whatever there is)
-                    mine = qualified.get(id(watcher))
+                    # _update_deps, also gets what qualified for that one)
+                    mine, lineage = qualified.get(id(watcher)), watcher
+                    while getattr(lineage.fn, '_predecessor', None) is not None:
+                        previous, lineage.fn._predecessor = lineage.fn._predecessor, None
+                        lineage = previous
+                        keys = qualified.get(id(lineage))
+                        if keys is None:
+                            # (in a deep copy the watcher kept by the object
+                            # and the one registered are equal, not identical)
+                            keys = next((qualified[i] for i, w in queued_for.items() if w == lineage), None)
+                        if keys:
+                            mine = keys | (mine or set())
                     events = [self_._update_event_type(watcher, event_dict[(name, watcher.what)],
                                                        self_._TRIGGER)
                               for name in watcher.parameter_names
@@ -3330,7 +3342,7 @@ class Parameters:
             if not self_._BATCH_WATCH and self_._events:
                 try:
                     self_._batch_call_watchers()
-                except BaseException:
+                except Exception:
                     self_._events = []
                     self_._state_watchers = []
             raise
